@@ -7,6 +7,9 @@ process the reestablish before the connection drops again (`halfCut`); reconnect
 each other directly, i.e. hit the resynchronisation itself.
 -/
 import LndModel.C03.Cut
+import LndModel.C03.Conv4
+import LndModel.C03.LRun
+import LndModel.C03.MirEq
 
 namespace LndModel.C03
 
@@ -140,5 +143,158 @@ example :
 example :
     (SSys.init.run [.actB (.upd true), .actB .sign, .dlvBA, .dlvBA, .actA .revoke, .cut {} 0 0]).ab
       = [SMsg.rev 0, SMsg.sig 1 ⟨0, 1⟩] := by decide
+
+/-! ## must: convergence (index level), under the discipline of lnd's link
+
+`SSys.init.lrun steps` ranges over every schedule in which an accepted commitment_signed is
+answered with the revocation before the receiver handles anything else (what
+`htlcswitch/link.go` does), with reconnections `cut` / `halfCut` at arbitrary points and with
+arbitrary delivered prefixes, any number of times, also while retransmissions are in flight.
+Without that discipline the statement is false on the skeleton and on the real code alike: a
+node that has an unrevoked received commitment, then processes a revoke_and_ack and then loses
+the connection is sent the old signature again and rejects it (see `checks/C03.notes.md`). -/
+
+/-- a crash between `ReceiveNewCommitment` and `RevokeCurrentCommitment` (or after an update
+    was received) leaves nothing behind: delivering such a message right before the connection
+    drops is the same as not delivering it.  Hence `cut` of the disciplined system needs no
+    "crash before revoke" case. -/
+theorem crash_before_revoke (s : SSys) (m : SMsg) (rest : List SMsg) (h : s.ab = m :: rest)
+    (hm : m.isRev = false) : s.dlvAB.dropReload = s.dropReload := by
+  cases s with
+  | mk a b ab ba =>
+    simp only at h; subst h
+    cases m with
+    | upd i => cases i <;> simp [SSys.dlvAB, SSys.dropReload, SNode.recv, SNode.reload, SNode.tipIdx]
+    | sig hh ix => simp [SSys.dlvAB, SSys.dropReload, SNode.recv, SNode.reload, SNode.tipIdx]
+    | rev hh => simp [SMsg.isRev] at hm
+
+/-- **every retransmitted (and every other) message is accepted.**  In every reachable state the
+    oldest message of either queue passes the receiver's checks: an update carries exactly the
+    next expected log index, a commitment_signed is for the receiver's next height and covers
+    exactly the receiver's own construction (its received updates, its acknowledged own updates),
+    a revoke_and_ack meets a pending commitment of the right height. -/
+theorem every_delivery_accepted (steps : List LStep) :
+    (∀ m rest, (SSys.init.lrun steps).ab = m :: rest → (SSys.init.lrun steps).b.accepts m = true) ∧
+    (∀ m rest, (SSys.init.lrun steps).ba = m :: rest → (SSys.init.lrun steps).a.accepts m = true) :=
+  ⟨(inv2_dlvRevAB _ (inv2_reachable steps)).2, (inv2_dlvRevBA _ (inv2_reachable steps)).2⟩
+
+/-- **no update is lost or duplicated**, at any time: what the receiver has plus the
+    entry-creating updates in flight is what the sender's log holds, and the updates in flight
+    carry consecutive indices starting at the receiver's counter. -/
+theorem no_update_lost_or_duplicated (steps : List LStep) :
+    let s := SSys.init.lrun steps
+    s.b.rIdx + nFresh s.ab = s.a.lIdx ∧ freshIdxOk s.b.rIdx s.ab = true ∧
+    s.a.rIdx + nFresh s.ba = s.b.lIdx ∧ freshIdxOk s.a.rIdx s.ba = true := by
+  intro s
+  have h : Inv2 s := inv2_reachable steps
+  exact ⟨h.2.2.2.1.count, h.2.2.2.1.idx, h.2.2.2.2.1.count, h.2.2.2.2.1.idx⟩
+
+/-- everything owed is in flight, in the order it was first sent (no message needed for the
+    resynchronisation is missing from the queues, none is there twice). -/
+theorem owed_in_flight (steps : List LStep) :
+    let s := SSys.init.lrun steps
+    s.ab.filter SMsg.notUpd = owed s.a s.b ∧ s.ba.filter SMsg.notUpd = owed s.b s.a := by
+  intro s
+  have h : Inv2 s := inv2_reachable steps
+  exact ⟨h.2.2.2.1.shape, h.2.2.2.2.1.shape⟩
+
+/-- **sync_converges.**  Whenever both queues have been delivered — after any number of
+    reconnections at any points — the two sides hold mirrored commitments: same heights, each
+    side's lowest unrevoked commitment is the other's view of it with the log indices swapped,
+    nothing is pending, and each side has received exactly the updates the other has in its log.
+    These equations determine one side's signed state from the other's, so it is the state of the
+    run without reconnections on everything that was signed. -/
+theorem sync_converges (steps : List LStep)
+    (hab : (SSys.init.lrun steps).ab = []) (hba : (SSys.init.lrun steps).ba = []) :
+    let s := SSys.init.lrun steps
+    s.a.rp = none ∧ s.b.rp = none ∧ s.a.lp = [] ∧ s.b.lp = [] ∧
+    s.b.lt = s.a.rt ∧ s.a.lt = s.b.rt ∧
+    s.b.ltIdx = s.a.rtIdx.swap ∧ s.a.ltIdx = s.b.rtIdx.swap ∧
+    s.b.rIdx = s.a.lIdx ∧ s.a.rIdx = s.b.lIdx := by
+  intro s
+  have h : Inv2 s := inv2_reachable steps
+  obtain ⟨⟨⟨r1, s1, _⟩, ⟨r2, s2, _⟩⟩, p1, p2, m1, m2, _, _⟩ := h
+  have hab' : s.ab = [] := hab
+  have hba' : s.ba = [] := hba
+  rw [hab'] at r1 s2 m1
+  rw [hba'] at r2 s1 m2
+  simp only [nRev_nil, nSig_nil, Nat.add_zero, p1, p2, List.length_nil] at r1 s1 r2 s2
+  have ha : s.a.rp = none := by
+    cases h : s.a.rp with
+    | none => rfl
+    | some ix => rw [tipH_some h] at s2; omega
+  have hb : s.b.rp = none := by
+    cases h : s.b.rp with
+    | none => rfl
+    | some ix => rw [tipH_some h] at s1; omega
+  rw [tipH_none ha] at s2
+  rw [tipH_none hb] at s1
+  have c1 := m1.count; have c2 := m2.count
+  simp only [nFresh_nil, Nat.add_zero] at c1 c2
+  exact ⟨ha, hb, p1, p2, s2, s1, m1.tail0 s2, m2.tail0 s1, c1, c2⟩
+
+/-- the reconnection itself changes no commitment either side holds (it only re-queues, and
+    possibly signs one new commitment): heights and log indices of both chains are those of the
+    restored state. -/
+theorem resync_keeps_commitments (x y : SNode) :
+    (syncNode x y).lt = x.lt ∧ (syncNode x y).ltIdx = x.ltIdx ∧ (syncNode x y).rt = x.rt ∧
+    (syncNode x y).rtIdx = x.rtIdx ∧ (syncNode x y).lIdx = x.lIdx ∧ (syncNode x y).rIdx = x.rIdx := by
+  obtain ⟨h1, h2, h3, h4, h5, _, h7⟩ := syncNode_recv_fields x y
+  exact ⟨h2, h5, h3, h4, h7, h1⟩
+
+/-- the executable predicate the driver evaluates on the real channels' states
+    (`Mirror.inv2Ok`, 28 000+ states per quick run) is exactly the invariant the convergence
+    theorems are proved from, and it holds in every reachable state of the disciplined system. -/
+theorem driver_index_check_sound (s r : SNode) (q : List SMsg) : mirOk s r q = true ↔ Mir s r q :=
+  mirOk_iff s r q
+
+theorem index_invariant_reachable (steps : List LStep) : inv2Ok (SSys.init.lrun steps) = true :=
+  inv2Ok_of_inv2 _ (inv2_reachable steps)
+
+/-- the two `must` theorems above, restated for the disciplined system (its reconnection
+    delivers the prefixes with immediate revocations): neither side fails, and what each side
+    returns is exactly what the peer is missing, in the original order. -/
+theorem sync_ok_and_exact_disciplined (steps : List LStep) (c : SyncCfg) (kA kB : Nat) :
+    let p := (SSys.init.lrun steps).lcutPre kA kB
+    p.a.processSync c.tweakless (p.b.chanSyncMsg c.dlpB) =
+      .ok (syncNode p.a p.b, (p.a.hist.filter (missing p.b)).flatMap (expand p.a) ++ freshSig p.a p.b) ∧
+    p.b.processSync c.tweakless (p.a.chanSyncMsg c.dlpA) =
+      .ok (syncNode p.b p.a, (p.b.hist.filter (missing p.a)).flatMap (expand p.b) ++ freshSig p.b p.a) := by
+  intro p
+  have hw := (invW2_lcutPre _ kA kB (inv2_reachable steps)).1
+  have h1 := processSync_spec hw.1 hw.2.1 c.tweakless c.dlpB
+  have h2 := processSync_spec hw.2.1 hw.1 c.tweakless c.dlpA
+  have e1 : p.a.hist.filter (missing p.b) = owed p.a p.b := hw.1.hist
+  have e2 : p.b.hist.filter (missing p.a) = owed p.b p.a := hw.2.1.hist
+  rw [e1, e2]
+  exact ⟨h1, h2⟩
+
+/-- the prefix phase of a disciplined reconnection is a run of the general system. -/
+theorem disciplined_cut_is_general_run (s : SSys) (kA kB : Nat) :
+    ∃ steps, s.lcutPre kA kB = (s.run steps).cutPre 0 0 := lcutPre_run s kA kB
+
+/-- Why the discipline is needed (full statement "for every C01 schedule" is FALSE): B signs,
+    A signs, B takes A's signature and revokes, A takes B's signature WITHOUT revoking, then B's
+    revocation, then the connection drops.  A has durably advanced its view of B's chain but lost
+    B's signature; B retransmits the old signature, which acknowledges none of what A now
+    expects, and A's check fails.  The same happens with the real `LightningChannel`s
+    (`checks/C03.notes.md`); lnd's link cannot get there. -/
+example :
+    let s := SSys.init.run [.actB (.upd true), .actB .sign, .actA (.upd true), .actA .sign,
+                            .dlvAB, .dlvAB, .actB .revoke, .dlvBA, .dlvBA, .dlvBA, .cut {} 0 0, .dlvBA]
+    s.ba = [SMsg.sig 1 ⟨1, 0⟩] ∧ s.a.accepts (SMsg.sig 1 ⟨1, 0⟩) = false := by decide
+
+/-! ### non-vacuity of the disciplined runs -/
+
+/-- update, signature, both delivered and revoked for, revocation lost: it is retransmitted and
+    everything drains to a mirrored state. -/
+example :
+    let s := SSys.init.lrun [.updA true, .signA, .dlvAB, .dlvAB, .cut {} 0 0, .dlvBA, .dlvBA, .dlvAB]
+    s.ab = [] ∧ s.ba = [] ∧ s.b.lt = 1 ∧ s.a.rt = 1 ∧ s.b.rIdx = 1 ∧ s.a.lt = 1 := by decide
+
+/-- a cut while the retransmissions of an earlier cut are in flight. -/
+example :
+    let s := SSys.init.lrun [.updA true, .signA, .cut {} 1 0, .dlvAB, .cut {} 0 0, .dlvAB, .dlvAB, .dlvBA]
+    s.ab = [] ∧ s.ba = [] ∧ s.b.lt = 1 ∧ s.a.rt = 1 ∧ s.b.rIdx = 1 ∧ s.a.lIdx = 1 := by decide
 
 end LndModel.C03
